@@ -155,6 +155,9 @@ func init() {
 		}
 	}
 	addMisuse("stale", "Event.Emit", func(d *Drv, op *Op, h, _ ecs.Entity) {
+		if h.IsZero() {
+			panic(skipMisuse{}) // custom events may be emitted for the zero entity
+		}
 		// with an observer of that type registered, emitting for a dead entity must panic
 		o := ecs.Observe(d.Custom[1]).Do(func(ecs.Entity) {})
 		o.Register(d.W)
